@@ -12,7 +12,7 @@ ASSUMPTIONS = [
     "the hook sequence of a *failed* children assignment (its rollback) is judged by the bracket/observation rules R1/R2 only",
     "calls ending in RecursionError are not judged (the event log may be truncated by the interpreter limit)",
 ]
-GATES = ["mon.C16.automaton", "mon.C16.R3", "mon.C16.R6", "C16.noop_silent", "C16.R5.post_fault_kept", "mon.C16.reentrant_observations"] + [
+GATES = ["mon.C16.automaton", "mon.C16.R3", "mon.C16.R6", "C16.noop_silent", "C16.R5.post_fault_kept", "mon.C16.reentrant_observations", "mon.C16.late_hooks"] + [
     "C16.ev." + k for k in ("pre_detach", "post_detach", "pre_attach", "post_attach", "pre_detach_children",
                             "post_detach_children", "pre_attach_children", "post_attach_children")]
 MONITORS = ("C16",)
@@ -22,8 +22,59 @@ def plan(tier, seed, jobs):
     return E.plan_shards(tier, seed, jobs)
 
 
+def late_hooks(ctx):
+    """Hooks that come into existence late: installed on the class after its instances already changed links, or
+    bound on a single instance.  Every later link change must still call them."""
+    from anytree import LightNodeMixin, NodeMixin
+
+    kinds = ("pre_detach", "post_detach", "pre_attach", "post_attach", "pre_detach_children", "post_detach_children", "pre_attach_children", "post_attach_children")
+    for base, slotted in ((NodeMixin, False), (LightNodeMixin, True)):
+        cls = type("Late" + base.__name__, (base,), {"__slots__": ()} if slotted else {})
+        a, b, c = cls(), cls(), cls()
+        names = {id(a): "a", id(b): "b", id(c): "c"}
+        b.parent = a  # the first link change of this class happens while no hook is defined
+        log = []
+
+        def mk(kind):
+            def hook(self, arg):
+                log.append((kind, names[id(self)], tuple(names[id(x)] for x in arg) if isinstance(arg, tuple) else names[id(arg)]))
+            return hook
+
+        for kind in kinds:
+            setattr(cls, "_" + kind, mk(kind))
+        c.parent = a
+        b.parent = None
+        a.children = [c, b]
+        del a.children
+        exp = [("pre_attach", "c", "a"), ("post_attach", "c", "a"), ("pre_detach", "b", "a"), ("post_detach", "b", "a"),
+               ("pre_detach_children", "a", ("c",)), ("pre_detach", "c", "a"), ("post_detach", "c", "a"), ("post_detach_children", "a", ("c",)),
+               ("pre_attach_children", "a", ("c", "b")), ("pre_attach", "c", "a"), ("post_attach", "c", "a"), ("pre_attach", "b", "a"), ("post_attach", "b", "a"),
+               ("post_attach_children", "a", ("c", "b")),
+               ("pre_detach_children", "a", ("c", "b")), ("pre_detach", "c", "a"), ("post_detach", "c", "a"), ("pre_detach", "b", "a"), ("post_detach", "b", "a"),
+               ("post_detach_children", "a", ("c", "b"))]
+        ctx.case(("late-hooks", base.__name__))
+        ctx.count("mon.C16.late_hooks")
+        if log != exp:
+            ctx.violation("C16/late-hooks/%s" % base.__name__, "hook-log", {"scenario": "hooks installed on the class after its first link change", "base": base.__name__},
+                          expected=[list(map(str, e)) for e in exp], observed=[list(map(str, e)) for e in log])
+        if not slotted:
+            # a hook bound on one instance
+            n, p = cls(), cls()
+            names.update({id(n): "n", id(p): "p"})
+            del log[:]
+            n._pre_attach = lambda parent: log.append(("instance_pre_attach", "n", names[id(parent)]))
+            n.parent = p
+            ctx.case(("instance-hook", base.__name__))
+            ctx.count("mon.C16.late_hooks")
+            if log != [("instance_pre_attach", "n", "p"), ("post_attach", "n", "p")]:
+                ctx.violation("C16/instance-bound-hook/%s" % base.__name__, "hook-log", {"scenario": "a _pre_attach hook bound on the instance", "base": base.__name__},
+                              expected=[["instance_pre_attach", "n", "p"], ["post_attach", "n", "p"]], observed=[list(map(str, e)) for e in log])
+
+
 def run(ctx):
     E.Engine(ctx, MONITORS, faults=True).run()
+    if ctx.shard in (0, 1):
+        late_hooks(ctx)
 
 
 def replay(ctx, wit):
